@@ -15,6 +15,7 @@ EXT = {"edif": ".edf", "verilog": ".v", "eblif": ".eblif"}
 # therefore minutes of work, not a hang. Such inputs are outside what the fuzzer is allowed to produce.
 HUGE_NUMBER = re.compile(r"\d{5,}")
 KINDS = ["truncate", "truncate", "delete", "duplicate", "replace", "replace", "swap", "dangling", "dangling",
+         "dangling", "dangling",
          "unsupported", "all-truncations", "garbage", "recursive", "recursive", "dup-construct",
          "dup-construct", "unopenable"]
 JUNK = ["(", ")", "0", "zz", '"s"', "cell", "net", "module", "endmodule", ";", ",", ".", "[", "]", "{", "}",
@@ -216,12 +217,12 @@ class C15(Prop):
                    "as many pins/wires as an index or width says (time proportional to the literal)",
                    "a hang is reported only through the per-case watchdog (150 s for up to ~100 parses of "
                    "texts that parse in milliseconds)"]
-    N = {"quick": 2400, "thorough": 40000}
+    N = {"quick": 3600, "thorough": 40000}
     CASE_TIMEOUT_S = 150    # a case is up to ~100 parses + the probe (normally < 2 s in total)
     PARSE_LIMIT_S = 20      # a single parse of these small texts normally takes milliseconds
 
     def strategy(self, tier):
-        ecfg = gen_ir.Cfg(unnamed=False, alphabet=NAMES, max_defs=4, max_children=3, max_width=3,
+        ecfg = gen_ir.Cfg(unnamed=False, alphabet=NAMES, max_defs=6, max_children=4, max_width=3,
                           share=True, top="always", lib_monotone=True, reorder=False,
                           top_modes=["standalone"], data_values="edif")
         stream = st.lists(st.integers(0, 63), min_size=8, max_size=24)
@@ -248,6 +249,77 @@ class C15(Prop):
         d = dict(case["eblif"])
         out["eblif"] = gen_eblif.render(d)[0] if gen_eblif.in_domain(d) else GOOD["eblif"]
         return out
+
+    # ---- a small exhaustive family: every way a cellRef / instanceRef can (fail to) resolve across two
+    # libraries that may both declare a cell X and two cells that each have an instance
+    def fixed_cases(self, tier):
+        import itertools
+        return [{"refmatrix": list(c)} for c in itertools.product(
+            [0, 1], [0, 1], ["A", "B", "none", "C"], ["own", "foreign"], [0, 1], [0, 1])]
+
+    def run_refmatrix(self, res, m):
+        import spydrnet as sdn
+
+        y_with_libref, b_has_x, target, iref, upper = m[:5]
+        y_net = m[5] if len(m) > 5 else 1   # is x1's pin already on a net inside Y
+        res.label("reference-matrix")
+        kw = (lambda t: t.upper()) if upper else (lambda t: t)
+        x_cell = '(cell X (cellType GENERIC) (view netlist (viewType NETLIST) (interface (port %s (direction INPUT)))))'
+        libA = ('(library A (edifLevel 0) (technology (numberDefinition)) ' + x_cell % "I" +
+                ' (cell Y (cellType GENERIC) (view netlist (viewType NETLIST) (interface (port a (direction INPUT)))'
+                ' (contents (instance x1 (viewRef netlist (cellRef X%s)))%s))))' % (
+                    " (libraryRef A)" if y_with_libref else "",
+                    " (net a (joined (portRef a) (portRef I (instanceRef x1))))" if y_net else ""))
+        ref = {"A": " (libraryRef %s)" % kw("A"), "B": " (libraryRef %s)" % kw("B"), "none": "",
+               "C": " (libraryRef C)"}[target]
+        inst_for_net = "z1" if iref == "own" else "x1"
+        libB = ('(library B (edifLevel 0) (technology (numberDefinition)) ' +
+                ((x_cell % "J") if b_has_x else "") +
+                ' (cell Z (cellType GENERIC) (view netlist (viewType NETLIST) (interface (port b (direction INPUT)))'
+                ' (contents (instance z1 (viewRef netlist (cellRef %s%s)))'
+                ' (net b (joined (portRef b) (portRef %s (instanceRef %s))))))))' % (
+                    kw("X"), ref, "%PORT%", kw(inst_for_net)))
+        # which X does z1 resolve to, if any
+        if target == "A":
+            bound = "A"
+        elif target in ("B", "none"):
+            bound = "B" if b_has_x else None
+        else:
+            bound = None
+        port = "I" if iref == "foreign" else {"A": "I", "B": "J", None: "I"}[bound]
+        text = ('(edif refm (edifVersion 2 0 0) (edifLevel 0) (keywordMap (keywordLevel 0)) ' + libA + " " +
+                libB.replace("%PORT%", port) + ' (design top (cellRef Z (libraryRef B))))')
+        valid = bound is not None and iref == "own"
+        sdn.namespace_manager.default = "DEFAULT"
+        try:
+            nl = parse_string("edif", text)
+            raised = None
+        except Exception as e:  # noqa
+            nl, raised = None, e
+        if sdn.namespace_manager.default != "DEFAULT":
+            res.violate("C15:edif:policy-not-restored-after-%s" % ("rejection" if raised else "success"),
+                        "reference matrix %r" % (m,))
+            sdn.namespace_manager.default = "DEFAULT"
+        tag = "cellref-%s:instanceref-%s" % (target if bound else target + "-missing", iref)
+        if not valid:
+            if raised is None:
+                res.violate("C15:edif:accepted-dangling-reference:%s" % tag, "matrix %r\n%s" % (m, text))
+            res.nontrivial = True
+            return res
+        if raised is not None:
+            res.violate("C15:edif:valid-reference-rejected:%s:%s" % (tag, type(raised).__name__),
+                        "matrix %r: %r\n%s" % (m, raised, text))
+            return res
+        for code, detail in model.wf(nl, strict=True):
+            res.violate("C15:edif:accepted-text-gives-ill-formed-netlist:%s" % code, "matrix %r: %s" % (m, detail))
+            return res
+        Z = next(sdn.get_definitions(nl, "Z"), None)
+        z1 = next(iter(Z.children), None) if Z is not None else None
+        got = z1.reference.library.name if z1 is not None and z1.reference is not None else None
+        if got != bound:
+            res.violate("C15:edif:reference-bound-to-wrong-library:%s" % tag,
+                        "matrix %r: z1 -> %r, the text says %r" % (m, got, bound))
+        return res
 
     def corrupt(self, fmt, text, c):
         """-> list of (corrupted text, must_raise, label)"""
@@ -356,8 +428,66 @@ class C15(Prop):
         if fmt != "edif":
             return [(join(fmt, toks[:i]), False, "truncate")]
         if kind == "dangling":
-            roles = ["cellref", "libraryref", "instanceref", "portref", "member", "libraryref-other"]
+            roles = ["cellref", "libraryref", "instanceref", "portref", "member", "libraryref-other",
+                     "instanceref-other-cell", "cellref-implicit-library", "instanceref-other-cell",
+                     "cellref-implicit-library", "libraryref-other"]
             role = roles[w % len(roles)]
+            if role in ("instanceref-other-cell", "cellref-implicit-library"):
+                # references that name something declared ELSEWHERE in the file (another cell's
+                # instance; a cell of another library reached without libraryRef): dangling where
+                # they stand, although a resolver that remembers names globally would bind them
+                def ident_at(k):
+                    return toks[k] if toks[k] != "(" else toks[k + 2]
+                stack, lib, cell = [], None, None
+                cells_of, insts_of = {}, {}
+                irefs, crefs = [], []
+                for k in range(n):
+                    t = toks[k]
+                    if t == "(":
+                        kwd = toks[k + 1].lower() if k + 1 < n else ""
+                        stack.append(kwd)
+                        if kwd in ("library", "external") and k + 2 < n:
+                            lib = ident_at(k + 2).lower()
+                            cells_of.setdefault(lib, set())
+                        elif kwd == "cell" and k + 2 < n and lib is not None:
+                            cell = (lib, ident_at(k + 2).lower())
+                            cells_of[lib].add(cell[1])
+                            insts_of.setdefault(cell, set())
+                        elif kwd == "instance" and k + 2 < n and cell is not None:
+                            insts_of[cell].add(ident_at(k + 2).lower())
+                        elif kwd == "instanceref" and k + 2 < n and cell is not None:
+                            irefs.append((k + 2, cell))
+                        elif kwd == "cellref" and k + 2 < n and lib is not None and "design" not in stack:
+                            has_lib = k + 4 < n and toks[k + 3] == "(" and toks[k + 4].lower() == "libraryref"
+                            crefs.append((k + 2, lib, has_lib))
+                    elif t == ")" and stack:
+                        kwd = stack.pop()
+                        if kwd == "cell":
+                            cell = None
+                        elif kwd in ("library", "external"):
+                            lib = None
+                if role == "instanceref-other-cell":
+                    cands = []
+                    for k, c in irefs:
+                        for c2, names in sorted(insts_of.items()):
+                            if c2 != c:
+                                for nm in sorted(names - insts_of.get(c, set())):
+                                    cands.append((k, nm))
+                    if not cands:
+                        return [(join(fmt, toks[:i]), False, "truncate")]
+                    k, nm = cands[pos % len(cands)]
+                    t2 = list(toks)
+                    t2[k] = nm
+                    return [(join(fmt, t2), True, "dangling-instanceref-other-cell")]
+                cands = []
+                for k, here, has_lib in crefs:
+                    if has_lib and toks[k + 3].lower() != here and toks[k].lower() not in cells_of.get(here, set()):
+                        cands.append(k)
+                if not cands:
+                    return [(join(fmt, toks[:i]), False, "truncate")]
+                k = cands[pos % len(cands)]
+                # drop "( libraryRef X )": four tokens after the cell identifier
+                return [(join(fmt, toks[:k + 1] + toks[k + 5:]), True, "dangling-cellref-implicit-library")]
             if role == "libraryref-other":
                 # a cellRef pointed at another DECLARED library that has no such cell: as dangling as
                 # an undeclared name (a resolver remembering cells by identifier alone would bind it)
@@ -453,6 +583,8 @@ class C15(Prop):
         res = Result()
         pair = int(core_hash(case), 16) % len(SPELLINGS)
         ref = reference_probe(pair)
+        if "refmatrix" in case:
+            return self.run_refmatrix(res, case["refmatrix"])
         if "raw" in case:
             # an input saved by the coverage-guided fuzzer
             fmt, text = case["raw"]["fmt"], case["raw"]["text"]
@@ -468,6 +600,8 @@ class C15(Prop):
             return res
         texts = self.texts(case)
         fmt = case["fmt"]
+        if case["corruption"]["kind"] in ("dangling", "unsupported"):
+            fmt = "edif"   # these corruption kinds are defined on EDIF constructs
         sdn.namespace_manager.default = case.get("initial_policy", "DEFAULT")
         res.label("format-" + fmt, "initial-" + sdn.namespace_manager.default)
         # does the uncorrupted text parse?
